@@ -50,3 +50,13 @@ Proof.
          | |- _ /\ _ => split
          end.
 Qed.
+
+(* the term that HashConsed::make builds for a key is well formed at its root: its cached flag and
+   classes are the recomputed ones (the node-level clause of wf_term) *)
+Lemma g_make_root_wf fuel i k e : node_ok fuel k -> M_RE_make fuel i k = Some e ->
+  rnul (conv_re e) = k_nullable (rnode (conv_re e)) /\ rcls (conv_re e) = k_class (rnode (conv_re e)) /\
+  rid (conv_re e) = N.of_nat i /\ rnode (conv_re e) = conv_base k.
+Proof.
+  intros Hok He. pose proof (link_make fuel i k Hok) as H. rewrite He in H. cbn [option_map] in H.
+  injection H as H. rewrite H. unfold mk_node. cbn [rnul rcls rid rnode]. repeat split; reflexivity.
+Qed.
